@@ -259,7 +259,8 @@ theorem reserved_table :
     loopName ∉ ({ reservedLoop := false } : Cfg).reserved ∧
     (∀ x ∈ Generated.Names.reservedNames, x ≠ loopName → x ∈ ({ reservedLoop := false } : Cfg).reserved) ∧
     Generated.Names.reservedCheckedCollections = ["argument_declared", "closuredefs", "locally_declared", "topleveldefs"] ∧
-    Generated.Names.renderContextChecksKwargs = true := by decide
+    Generated.Names.renderContextChecksKwargs = true ∧
+    Generated.Names.renderContextKwargsCheckUnconditional = true := by decide
 
 /-- In every generated scope of every template: a reserved name the template binds there – by an assignment form
 (`<% %>` code, control-line targets, `<%page args>`; also through the blocks of the scope), as an argument of the
@@ -282,7 +283,8 @@ theorem reserved_rejected_counterexample :
     loopName ∈ c.reserved ∧ contextName ∈ c.reserved ∧ compileConflicts c (.leaf 1 [] [loopName] .nil) = [] := by decide
 
 /-- every render entry point rejects a reserved name: as a key of the data (`render*`, or a fresh `Context` handed to
-`render_context`), and as a keyword argument of `render_context` -/
+`render_context`), and as a keyword argument of `render_context` – whatever the state of the `Context` (`fresh` is
+universally quantified: a context that was already rendered into, or the running template's own context, included) -/
 theorem render_entries_reject (reserved keys kw : List Name) (e : Entry) (fresh : Bool) (x : Name) (hr : x ∈ reserved)
     (h : (x ∈ keys ∧ (fresh = true ∨ (e ≠ .renderContext ∧ e ≠ .defRenderContext))) ∨
          (x ∈ kw ∧ (e = .renderContext ∨ e = .defRenderContext))) :
@@ -301,16 +303,18 @@ theorem render_entries_reject (reserved keys kw : List Name) (e : Entry) (fresh 
     rw [this]
     rfl
   have hkw : Generated.Names.renderContextChecksKwargs = true := by decide
+  have hun : Generated.Names.renderContextKwargsCheckUnconditional = true := by decide
   rcases h with ⟨hk, hf⟩ | ⟨hk, he⟩
   · have k1 := key (keys ++ [captureName, callerName]) (by simp [hk])
     cases e <;> simp only [renderEntry] <;> first
       | exact k1
+      | (simp at hf)
       | (rcases hf with hf | hf
          · obtain ⟨l, hl, hne⟩ := k1
            exact ⟨l, by simp [hf, hl], hne⟩
          · simp at hf)
   · have k2 := key kw hk
-    rcases he with rfl | rfl <;> simp only [renderEntry, hkw, if_true] <;>
+    rcases he with rfl | rfl <;> simp only [renderEntry, hkw, hun, Bool.true_or, Bool.and_self, if_true] <;>
       (cases h1 : (if fresh = true then setWithTemplate reserved (keys ++ [captureName, callerName]) else Outcome.proceeds) with
        | nameConflict l =>
          refine ⟨l, rfl, ?_⟩
@@ -327,6 +331,32 @@ theorem render_entries_reject (reserved keys kw : List Name) (e : Entry) (fresh 
              simp at hne
        | proceeds => exact k2)
 
-example : renderEntry ({} : Cfg).reserved .renderContext true [] [loopName] = .nameConflict [loopName] := by decide
+/-- `<%include args=…>` / `Namespace.include_file`: the model follows the regenerated fact about
+`runtime._include_file` – with the check, a reserved keyword argument is rejected; without it (F-C04-8 on the tree
+before its repair) it is accepted -/
+theorem include_args_follow_code (reserved keys kw : List Name) (fresh : Bool) (x : Name) (hr : x ∈ reserved) (hk : x ∈ kw) :
+    (Generated.Names.includeChecksKwargs = true →
+        ∃ l, renderEntry reserved .includeFile fresh keys kw = .nameConflict l ∧ l ≠ []) ∧
+    (Generated.Names.includeChecksKwargs = false → renderEntry reserved .includeFile fresh keys kw = .proceeds) := by
+  constructor
+  · intro h
+    have hx : x ∈ reserved.filter (fun n => decide (n ∈ kw)) := by simp [List.mem_filter, hr, hk]
+    have hne : reserved.filter (fun n => decide (n ∈ kw)) ≠ [] := fun h0 => by rw [h0] at hx; simp at hx
+    refine ⟨_, ?_, hne⟩
+    have : (reserved.filter (fun n => decide (n ∈ kw))).isEmpty = false := by
+      cases hl : reserved.filter (fun n => decide (n ∈ kw)) with
+      | nil => exact absurd hl hne
+      | cons a l => rfl
+    simp only [renderEntry, h, if_true]
+    show (if (reserved.filter (fun n => decide (n ∈ kw))).isEmpty = true then Outcome.proceeds
+          else Outcome.nameConflict _) = _
+    rw [this]
+    rfl
+  · intro h
+    simp [renderEntry, h]
+
+example : renderEntry ({} : Cfg).reserved .renderContext true [] [loopName] = .nameConflict [loopName] ∧
+    renderEntry ({} : Cfg).reserved .renderContext false [] [loopName] = .nameConflict [loopName] ∧
+    renderEntry ({} : Cfg).reserved .defRenderContext false ["a".toList] [contextName] = .nameConflict [contextName] := by decide
 
 end MakoModel.C04
